@@ -57,7 +57,7 @@ func (h *storeHarness) Gen(r *Rand, tier string, clean bool) any {
 	if tier == "thorough" {
 		maxU = 24
 	}
-	c.U = genUniverse(r, r.Range(8, maxU), c.Rich, c.Collide)
+	c.U = genUniverseX(r, r.Range(8, maxU), c.Rich, c.Collide, true, c.Rich && r.Chance(0.4))
 	ng := r.Range(1, 3)
 	for i := 0; i < ng; i++ {
 		c.Names = append(c.Names, fmt.Sprintf("?g%d", i))
@@ -493,6 +493,9 @@ func sampleOpts(r *Rand) OptSpec {
 	var o OptSpec
 	anch := func() *int64 {
 		n := Anchors[r.Intn(len(Anchors))].UnixNano() + int64(r.Intn(3)-1)
+		if r.Chance(0.08) {
+			n = int64(r.Intn(3) - 1) // around the Unix epoch
+		}
 		return &n
 	}
 	if r.Chance(0.5) {
